@@ -517,3 +517,103 @@ class RealFloat___pow__(Contract):
 
     def raises(self, exponent):
         return {'ValueError': exponent < 0}
+
+
+# ---------------------------------------------------------------------------
+# order (H2): compare / == / < / <= / > / >= agree with the denoted values across operand types
+# (the RealFloat x RealFloat case of compare is contracts/reals.py: RealFloat_compare)
+
+class RealFloat_compare_mixed(Contract):
+    target = 'fpy2.number.number.reals:RealFloat.compare'
+    params = {'self': 'RealFloat', 'other': 'int | float | Fraction'}
+    returns = 'Ordering | None'
+    properties = ['C05']
+    split = ['other']
+    options = {'solve_eqs': True}
+
+    def post(self, other, result):
+        if cls_name(other) == 'int':
+            fork_on(other < 0)
+        lt, eq, gt = cmp3(trip(self), other)
+        return {
+            # None iff unordered (a NaN is involved)
+            'none_iff_unordered': (result is None) == (not lt and not eq and not gt),
+            'less': ord_is(result, 'LESS') == lt,
+            'equal': ord_is(result, 'EQUAL') == eq,
+            'greater': ord_is(result, 'GREATER') == gt,
+        }
+
+    def raises(self, other):
+        return {}
+
+
+class RealFloat___eq__(Contract):
+    target = 'fpy2.number.number.reals:RealFloat.__eq__'
+    params = {'self': 'RealFloat', 'other': 'RealFloat | int | float | Fraction | None'}
+    returns = 'bool'
+    properties = ['C05']
+    split = ['other']
+
+    def post(self, other, result):
+        return {'eq': result == (False if other is None else cmp3(trip(self), other)[1])}
+
+    def raises(self, other):
+        return {}
+
+
+class RealFloat___lt__(Contract):
+    target = 'fpy2.number.number.reals:RealFloat.__lt__'
+    params = {'self': 'RealFloat', 'other': 'RealFloat | int | float | Fraction'}
+    returns = 'bool'
+    properties = ['C05']
+    split = ['other']
+
+    def post(self, other, result):
+        return {'lt': result == cmp3(trip(self), other)[0]}
+
+    def raises(self, other):
+        return {}
+
+
+class RealFloat___le__(Contract):
+    target = 'fpy2.number.number.reals:RealFloat.__le__'
+    params = {'self': 'RealFloat', 'other': 'RealFloat | int | float | Fraction'}
+    returns = 'bool'
+    properties = ['C05']
+    split = ['other']
+
+    def post(self, other, result):
+        c = cmp3(trip(self), other)
+        return {'le': result == (c[0] or c[1])}
+
+    def raises(self, other):
+        return {}
+
+
+class RealFloat___gt__(Contract):
+    target = 'fpy2.number.number.reals:RealFloat.__gt__'
+    params = {'self': 'RealFloat', 'other': 'RealFloat | int | float | Fraction'}
+    returns = 'bool'
+    properties = ['C05']
+    split = ['other']
+
+    def post(self, other, result):
+        return {'gt': result == cmp3(trip(self), other)[2]}
+
+    def raises(self, other):
+        return {}
+
+
+class RealFloat___ge__(Contract):
+    target = 'fpy2.number.number.reals:RealFloat.__ge__'
+    params = {'self': 'RealFloat', 'other': 'RealFloat | int | float | Fraction'}
+    returns = 'bool'
+    properties = ['C05']
+    split = ['other']
+
+    def post(self, other, result):
+        c = cmp3(trip(self), other)
+        return {'ge': result == (c[2] or c[1])}
+
+    def raises(self, other):
+        return {}
